@@ -2,6 +2,11 @@
 
 #include <cstdint>
 
+#ifdef TEAKRA_VERIF
+// Verification hook: the harness defines this struct to read private state for canonical dumps.
+struct TeakraVerifAccess;
+#endif
+
 using u8 = std::uint8_t;
 using u16 = std::uint16_t;
 using u32 = std::uint32_t;
